@@ -584,6 +584,32 @@ func (x *c12) outgoing() {
 	c.Floor("R12.1", "uses of the MSE wrapper as the connection in Dial", n, 1)
 }
 
+// updatesCipherWith: call is updateCipher(sel) with sel matched by isSel, or a
+// call of a module helper that receives such a value as argument j and on
+// every returning path calls updateCipher with its parameter j.
+func (x *c12) updatesCipherWith(call *ssa.Call, updateCipher *types.Func, isSel func(*kit.Expr) bool) bool {
+	if kit.CalleeObj(&call.Call) == updateCipher {
+		return isSel(kit.Canon(argOf(&call.Call, 1)))
+	}
+	h := call.Call.StaticCallee()
+	if h == nil || h.Blocks == nil || h.Pkg == nil || !kit.InModule(h.Pkg.Pkg.Path()) {
+		return false
+	}
+	for j, a := range call.Call.Args {
+		if j >= len(h.Params) || !isSel(kit.Canon(a)) {
+			continue
+		}
+		p := h.Params[j]
+		if x.c.MustCallSummary(h, func(ins ssa.Instruction) bool {
+			uc, ok := ins.(*ssa.Call)
+			return ok && kit.CalleeObj(&uc.Call) == updateCipher && kit.Canon(argOf(&uc.Call, 1)).Strip().V == ssa.Value(p)
+		}, 1) {
+			return true
+		}
+	}
+	return false
+}
+
 // ---- R12.2 selected is one of the offered methods ---------------------------------
 
 // selFacts checks the three facts about the selected method at `at`.
@@ -667,7 +693,7 @@ func (x *c12) selection() {
 			// the stream is switched according to the same value
 			okUpd := false
 			kit.Instrs(fn, func(ins ssa.Instruction) {
-				if call, ok := ins.(*ssa.Call); ok && kit.CalleeObj(&call.Call) == updateCipher && isSel(kit.Canon(argOf(&call.Call, 1))) && kit.Dominates(call, r) {
+				if call, ok := ins.(*ssa.Call); ok && x.updatesCipherWith(call, updateCipher, isSel) && kit.Dominates(call, r) {
 					okUpd = true
 				}
 			})
@@ -749,7 +775,7 @@ func (x *c12) selection() {
 			}
 			okUpd := false
 			kit.Instrs(fn, func(ins ssa.Instruction) {
-				if uc, ok := ins.(*ssa.Call); ok && kit.CalleeObj(&uc.Call) == updateCipher && isSel(kit.Canon(argOf(&uc.Call, 1))) && kit.Dominates(uc, r) {
+				if uc, ok := ins.(*ssa.Call); ok && x.updatesCipherWith(uc, updateCipher, isSel) && kit.Dominates(uc, r) {
 					okUpd = true
 				}
 			})
@@ -872,9 +898,26 @@ func (x *c12) selection() {
 		}
 		hsOutFn := c.Func("internal/mse", "(*Stream).HandshakeOutgoing")
 		hsInFn := c.Func("internal/mse", "(*Stream).HandshakeIncoming")
+		// ... or from helpers that only the handshake functions call
+		var hsHelper func(fn *ssa.Function, depth int) bool
+		hsHelper = func(fn *ssa.Function, depth int) bool {
+			if fn == hsOutFn || fn == hsInFn {
+				return true
+			}
+			sites := c.StaticCallSites(fn)
+			if depth <= 0 || len(sites) == 0 || fn.Parent() != nil {
+				return false
+			}
+			for _, site := range sites {
+				if site == nil || !hsHelper(site.Parent(), depth-1) {
+					return false
+				}
+			}
+			return true
+		}
 		for _, s := range sortSites(c.CallSites(updateCipher)) {
-			if s.Fn != hsOutFn && s.Fn != hsInFn {
-				c.Bad("R12.2", k.key(s.Fn, "call updateCipher"), posOf(s.Instr), "updateCipher called outside the two handshake functions: the cipher can change after negotiation")
+			if !hsHelper(s.Fn, 2) {
+				c.Bad("R12.2", k.key(s.Fn, "call updateCipher"), posOf(s.Instr), "updateCipher called outside the two handshake functions (and the helpers only they call): the cipher can change after negotiation")
 			}
 		}
 	}
